@@ -266,38 +266,7 @@ def run(ctx):
                             "a request for one back end (\"c64x-c\", or a misspelt name) silently gets another whose name is a prefix of it, and an "
                             "override naming an unknown back end is honoured")
 
-    # ---- D10: every compile request reaches the compiler with the target it names -----------------------
-    # orc_program_compile -> _for_target -> _full -> orc_compiler_compile_program: each stage must, on EVERY path to a return,
-    # call the next stage and hand it its own target (the default target / the target parameter).  A stage that returns early
-    # (e.g. because the program already carries code) leaves the code of whatever target compiled it before in place.
-    from flow import path_to
-    CHAIN = [("orc_program_compile", ("orc_program_compile_for_target", "orc_program_compile_full", "orc_compiler_compile_program")),
-             ("orc_program_compile_for_target", ("orc_program_compile_full", "orc_compiler_compile_program")),
-             ("orc_program_compile_full", ("orc_compiler_compile_program",))]
-    for fn10, nxt in CHAIN:
-        f10 = db.func(fn10, "orcprogram")
-        rep.saw(f10)
-        calls10 = [c for c in f10.calls() if c.name in nxt]
-        rets10 = [r for r in f10.walk() if r.k == "ReturnStmt"]
-        if not calls10 or not rets10:
-            raise AnalysisBroken("%s: no call to the next compile stage / no return" % fn10)
-        tparam = [p["name"] for p in f10.params if "OrcTarget *" in (p.get("ty") or "")]
-        bad10 = None
-        for r in rets10:
-            if path_to(f10, r, lambda e: e.k == "CallExpr" and e.name in nxt) is not None:
-                bad10 = "can return (line %s) without calling %s" % (r.line, " / ".join(nxt))
-        for c in calls10:
-            targs = [a for a in c.args() if "OrcTarget *" in (a.ty or "")]
-            if tparam:
-                if not any(access_path(strip_casts(a)) == tparam[0] for a in targs):
-                    bad10 = bad10 or "passes `%s` to %s, not its own target parameter `%s`" % (unparse(targs[0])[:40] if targs else "?", c.name, tparam[0])
-            else:
-                if not any(strip_casts(a) is not None and strip_casts(a).k == "CallExpr" and strip_casts(a).name == "orc_target_get_default" for a in targs):
-                    bad10 = bad10 or "does not pass orc_target_get_default () to %s" % c.name
-        rep.check(bad10 is None, "D10-REQUEST-REACHES-COMPILER", where(f10), fn10,
-                  "%s hands its target to %s on every path" % (fn10, calls10[0].name),
-                  "%s %s: a request for a particular target (by name, by ORC_TARGET, or the default after a by-name compile) then leaves whatever code the "
-                  "program already carried in place and reports success" % (fn10, bad10), line=f10.line)
+    request_reaches_compiler(db, rep, "D10-REQUEST-REACHES-COMPILER")
 
     # ---- D11: a CPUID leaf is queried only where the CPU is known to implement it ------------------------
     d11_cpuid_leaf_guard(db, rep)
@@ -631,3 +600,38 @@ def d13_xcr0_all_state_bits(db, rep, rule="D13-XCR0-ALL-BITS"):
                   "sets of sse) are switched on although the OS may not save the YMM state - an any-bit test of a two-bit mask is true for SSE state alone" %
                   (unparse(r.c[0])[:80], r.line, sorted(got)), line=r.line)
     return len(rets)
+
+
+def request_reaches_compiler(db, rep, rule):
+    # ---- D10: every compile request reaches the compiler with the target it names -----------------------
+    # orc_program_compile -> _for_target -> _full -> orc_compiler_compile_program: each stage must, on EVERY path to a return,
+    # call the next stage and hand it its own target (the default target / the target parameter).  A stage that returns early
+    # (e.g. because the program already carries code) leaves the code of whatever target compiled it before in place.
+    from flow import path_to
+    CHAIN = [("orc_program_compile", ("orc_program_compile_for_target", "orc_program_compile_full", "orc_compiler_compile_program")),
+             ("orc_program_compile_for_target", ("orc_program_compile_full", "orc_compiler_compile_program")),
+             ("orc_program_compile_full", ("orc_compiler_compile_program",))]
+    for fn10, nxt in CHAIN:
+        f10 = db.func(fn10, "orcprogram")
+        rep.saw(f10)
+        calls10 = [c for c in f10.calls() if c.name in nxt]
+        rets10 = [r for r in f10.walk() if r.k == "ReturnStmt"]
+        if not calls10 or not rets10:
+            raise AnalysisBroken("%s: no call to the next compile stage / no return" % fn10)
+        tparam = [p["name"] for p in f10.params if "OrcTarget *" in (p.get("ty") or "")]
+        bad10 = None
+        for r in rets10:
+            if path_to(f10, r, lambda e: e.k == "CallExpr" and e.name in nxt) is not None:
+                bad10 = "can return (line %s) without calling %s" % (r.line, " / ".join(nxt))
+        for c in calls10:
+            targs = [a for a in c.args() if "OrcTarget *" in (a.ty or "")]
+            if tparam:
+                if not any(access_path(strip_casts(a)) == tparam[0] for a in targs):
+                    bad10 = bad10 or "passes `%s` to %s, not its own target parameter `%s`" % (unparse(targs[0])[:40] if targs else "?", c.name, tparam[0])
+            else:
+                if not any(strip_casts(a) is not None and strip_casts(a).k == "CallExpr" and strip_casts(a).name == "orc_target_get_default" for a in targs):
+                    bad10 = bad10 or "does not pass orc_target_get_default () to %s" % c.name
+        rep.check(bad10 is None, rule, where(f10), fn10,
+                  "%s hands its target to %s on every path" % (fn10, calls10[0].name),
+                  "%s %s: a request for a particular target (by name, by ORC_TARGET, or the default after a by-name compile) then leaves whatever code the "
+                  "program already carried in place and reports success" % (fn10, bad10), line=f10.line)
